@@ -30,6 +30,7 @@ theorem share_arrayLitFresh : share.arrayLitFresh = true := rfl
 theorem share_arrayLitAssignInPlace : share.arrayLitAssignInPlace = true := rfl
 theorem share_lookup2DefineFresh : share.lookup2DefineFresh = true := rfl
 theorem share_lookup2RedeclInPlace : share.lookup2RedeclInPlace = true := rfl
+theorem share_structLitInTemp : share.structLitInTemp = true := rfl
 theorem share_derefNilPanics : share.derefNilPanics = true := rfl
 theorem share_recvAssignsValue : share.recvAssignsValue = true := rfl
 theorem share_assertDefineFresh : share.assertDefineFresh = true := rfl
